@@ -105,6 +105,17 @@ int main(int argc, char **argv) {
                 label("src:grammar");
             } else if (src == 1) { bytes = g_seeds[(size_t) *g::range(0, 9999) % g_seeds.size()]; if (bytes.size() > 20000) bytes.resize(20000); size_t cut = (size_t) *g::range(0, 1 << 20) % (bytes.size() + 1); if (*g::chance(70)) bytes.resize(cut); label("src:test-data-truncated"); }
             else { int n = *g::sized(0, 200); for (int i = 0; i < n; i++) bytes += (char) *rc::gen::weightedOneOf<int>({{6, g::range(0x20, 0x7e)}, {2, rc::gen::element(9, 10, 13, 39, 34, 59, 95, 35)}, {2, g::range(0, 255)}}); label("src:random-bytes"); }
+            // a token larger than half / all of the parser's 131200-unit scan buffer (the buffer is then compacted with the token in it, or
+            // re-allocated), placed behind 0..130000 units of other material so that the refill happens at different fill levels
+            if (*g::chance(3)) {
+                int kind = *g::range(0, 3); size_t len = (size_t) *rc::gen::element(66000, 70000, 129000, 131300, 140000, 270000); size_t lead = (size_t) *rc::gen::element(0, 100, 60000, 100000, 130000);
+                std::string tok; for (size_t i = 0; i < len; i++) tok += (i % 997 == 996) ? (kind == 0 || kind == 1 ? '\n' : 'q') : (char) ('a' + i % 23);
+                std::string item = "\n_huge ";
+                if (kind == 0) item += "\n;" + tok + "\n;"; else if (kind == 1) item += "\'\'\'" + tok + "\'\'\'"; else if (kind == 2) item += "\"" + tok + "\""; else item += tok;
+                std::string pad; for (size_t i = 0; i < lead; i++) pad += (i % 70 == 69) ? '\n' : (i % 70 == 0 ? '#' : 'c');
+                bytes += "\n" + pad + item + "\n_after_huge 1\n";
+                label("huge-token");
+            }
             if (*g::chance(80)) { auto ed = *rc::gen::container<std::vector<int>>((size_t) (3 * *g::range(1, 4)), g::range(0, 99999)); bytes = mutate(bytes, ed); label("mutated"); }
             int enc = *rc::gen::weightedElement<int>({{12, 0}, {2, 1}, {1, 2}, {1, 3}, {1, 4}});
             if (enc) { bytes = reencode(bytes, enc, *g::chance(70)); label(enc <= 2 ? "utf16" : "utf32"); }
